@@ -14,39 +14,50 @@ import Dashu.Driver.Text
 namespace Dashu.Driver.TextSci
 open Dashu.IO Dashu.Driver Dashu.Model.Text Dashu.Driver.Text Dashu.Model.Float
 
+/-- `f.rtsci K P S F [W]`: `S` = `-` | `+` | `0` | `+0` (the `+` and zero flags), `W` = optional width `d:n` (used with the zero flag:
+    the padding zeros stand behind sign / `0x` — theorem `padded_scientific_print_parse`; then only the VALUE read is fixed, the
+    precision read counts the padding zeros) -/
+def rtsci (W : Nat) (k p pl a : String) (w : Option Nat) : Option String := do
+  let p ← optNat p; let a ← parseFArg a
+  let (plus, zero) ← (match pl with
+    | "+" => some (true, false) | "-" => some (false, false) | "0" => some (false, true) | "+0" => some (true, true)
+    | _ => none)
+  let f : FmtSpec := { plus := plus, zero := zero, width := w }
+  let text ← match k with
+    | "lexp" => some (fmtSci a.base a.mode f p false a.repr)
+    | "uexp" => some (fmtSci a.base a.mode f p true a.repr)
+    | _ => fmtRadixTrait a.base a.mode f p k a.repr
+  let hex := a.base == 2 && (k == "lhex" || k == "uhex")
+  let back := fromStrNative W a.base text
+  let res := match back with
+    | .ok (v, n) => if isizeOk v.exp then Dashu.Driver.Text.reprStr v ++ " " ++ toString n else "err InvalidDigit"
+    | .error e => "err " ++ e.name
+  -- rounding commutes with scaling by a power of the base: the specification is evaluated with the exponent moved
+  -- to 0 (exponents of any magnitude can be driven)
+  let x := (⟨a.repr.signif, 0⟩ : FRepr).toRat a.base
+  let same := match back, p with
+    | .ok (v, _), none => v == a.repr
+    | .ok (v, n), some p0 =>
+      let P := if hex then 4 * p0 + 4 else p0 + 1
+      let w' := (specRound a.base a.mode P x).1
+      v == (if w'.signif = 0 then w' else ⟨w'.signif, w'.exp + a.repr.exp⟩) &&
+        (w.isSome || n == (p0 + 1) * (if hex then 4 else 1))
+    | .error _, _ => false
+  let out := "ok " ++ natBytesToStr text ++ " " ++ res
+  -- a printed exponent outside the `isize` range cannot be read back (hypothesis of `scientific_print_parse`): the
+  -- text is still required; a rejected parse is accepted only there (exponents beyond ±2^62)
+  let far := !(isizeOk (2 * a.repr.exp))
+  let okBack := match back with
+    | .ok _ => same
+    | .error _ => far
+  pure (if okBack then out else out ++ " !model-spec-mismatch sci-round-trip-differs")
+
 def dispatch : Dispatch := fun W op args =>
   match op, args with
-  | "f.rtsci", [k, p, pl, a] => do
-    let p ← optNat p; let a ← parseFArg a
-    let plus ← (if pl = "+" then some true else if pl = "-" then some false else none)
-    let f : FmtSpec := { plus := plus }
-    let text ← match k with
-      | "lexp" => some (fmtSci a.base a.mode f p false a.repr)
-      | "uexp" => some (fmtSci a.base a.mode f p true a.repr)
-      | _ => fmtRadixTrait a.base a.mode f p k a.repr
-    let hex := a.base == 2 && (k == "lhex" || k == "uhex")
-    let back := fromStrNative W a.base text
-    let res := match back with
-      | .ok (v, n) => Dashu.Driver.Text.reprStr v ++ " " ++ toString n
-      | .error e => "err " ++ e.name
-    -- rounding commutes with scaling by a power of the base: the specification is evaluated with the exponent moved
-    -- to 0 (exponents of any magnitude can be driven)
-    let x := (⟨a.repr.signif, 0⟩ : FRepr).toRat a.base
-    let same := match back, p with
-      | .ok (v, _), none => v == a.repr
-      | .ok (v, n), some p0 =>
-        let P := if hex then 4 * p0 + 4 else p0 + 1
-        let w := (specRound a.base a.mode P x).1
-        v == (if w.signif = 0 then w else ⟨w.signif, w.exp + a.repr.exp⟩) && n == (p0 + 1) * (if hex then 4 else 1)
-      | .error _, _ => false
-    let out := "ok " ++ natBytesToStr text ++ " " ++ res
-    -- a printed exponent outside the `isize` range cannot be read back (hypothesis of `scientific_print_parse`): the
-    -- text is still required; a rejected parse is accepted only there (exponents beyond ±2^62)
-    let far := !(isizeOk (2 * a.repr.exp))
-    let okBack := match back with
-      | .ok _ => same
-      | .error _ => far
-    pure (if okBack then out else out ++ " !model-spec-mismatch sci-round-trip-differs")
+  | "f.rtsci", [k, p, pl, a] => rtsci W k p pl a none
+  | "f.rtsci", [k, p, pl, a, w] => do
+    let w ← parseDecNat w
+    rtsci W k p pl a (some w)
   | _, _ => none
 
 end Dashu.Driver.TextSci
